@@ -44,7 +44,16 @@ func RaceMain(args []string) int {
 	} else {
 		r := NewRng(Mix(*seed, "C15race", *run))
 		var alpha []Op
+		if *run%2 == 1 {
+			// broadside scenarios walk through {custom error page: failing, valid, none, missing} x {debug off, on}
+			k := *run / 2
+			c16Force = func(o *TreeOpts) {
+				o.ErrPage = []string{"failing", "valid", "", "missing"}[k%4]
+				o.Debug = (k/4)%2 == 1
+			}
+		}
 		sc, _, alpha = genC15Alpha(r, "quick")
+		c16Force = nil
 		sc.Seed, sc.Run = *seed, *run
 		if *run%2 == 1 && sc.Family != "cold" {
 			// broadside: every goroutine issues EVERY call of the alphabet, each starting at another
